@@ -155,6 +155,10 @@ def case_path(r):
         segs = r.choice(ps) if ps else ("a",)
     elif k < 0.93:
         segs = r.choice(objs) + tuple(r.choice(["n1", "n2", "zz", "x"]) for _ in range(r.randrange(1, 4)))
+        if r.random() < 0.4:
+            # an empty token (the legal member name "") in front of the last one: `/a//b` addresses a[""].b
+            i = r.randrange(len(segs))
+            segs = segs[:i] + ("",) + segs[i:]
     else:
         segs = ()
     k = r.random()
